@@ -1,10 +1,10 @@
 package rules
 
 import (
-	"strings"
 	"fmt"
 	"go/token"
 	"go/types"
+	"strings"
 
 	"golang.org/x/tools/go/ssa"
 	"verifcheck/internal/report"
@@ -129,10 +129,11 @@ func OnlyRule(obs []report.Obligation, rules ...string) []report.Obligation {
 
 // INPUTS: a load does not write what the caller handed in, so the same ConfigDetails can be loaded again, or by
 // several goroutines at once.
-//   INPUTS-env   no map update / delete on the map held by ConfigDetails.Environment anywhere in package loader;
-//   INPUTS-cfg   the pre-parsed tree ConfigFile.Config is only handed to the key-conversion function, and that
-//                function returns a new tree: it writes nothing through its argument and its result shares no map
-//                or slice with it (ownership analysis), so the in-place pipeline works on a copy.
+//
+//	INPUTS-env   no map update / delete on the map held by ConfigDetails.Environment anywhere in package loader;
+//	INPUTS-cfg   the pre-parsed tree ConfigFile.Config is only handed to the key-conversion function, and that
+//	             function returns a new tree: it writes nothing through its argument and its result shares no map
+//	             or slice with it (ownership analysis), so the in-place pipeline works on a copy.
 func (c *Ctx) INPUTS(rule string) []report.Obligation {
 	var out []report.Obligation
 	isField := func(v ssa.Value, owner, field string) bool {
